@@ -35,6 +35,7 @@ type c12req struct {
 	hdr  map[string]string
 	perm *bramble.OperationPermissions
 	tag  string
+	meta bool // an introspection document: judged against "alone" only, not handed to the request-path model
 }
 
 type c12obs struct {
@@ -44,6 +45,34 @@ type c12obs struct {
 
 func respKey(r *gwResponse) string {
 	return fmt.Sprint(r.Status) + "|" + fmt.Sprint(r.Data) + "|" + strings.Join(errorSummary(r.Errors), ";")
+}
+
+// metaKey: an introspection answer with every list sorted (the order of __schema.types and of a type's fields follows
+// Go's map iteration and the order in which polls completed; it is not part of any contract)
+func metaKey(r *gwResponse) string {
+	var canon func(o *OJ) string
+	canon = func(o *OJ) string {
+		if o == nil {
+			return "<nil>"
+		}
+		switch o.Kind {
+		case "arr":
+			var es []string
+			for _, e := range o.Arr {
+				es = append(es, canon(e))
+			}
+			sort.Strings(es)
+			return "[" + strings.Join(es, ",") + "]"
+		case "obj":
+			var es []string
+			for i, k := range o.Keys {
+				es = append(es, k+":"+canon(o.Vals[i]))
+			}
+			return "{" + strings.Join(es, ",") + "}"
+		}
+		return fmt.Sprint(o)
+	}
+	return fmt.Sprint(r.Status) + "|" + canon(r.Data) + "|" + strings.Join(errorSummary(r.Errors), ";")
 }
 
 // goSelPaths renders a selection set as a sorted list of paths: the order of the plumbing fragments the planner adds for
@@ -217,6 +246,24 @@ func runC12(cfg runCfg) error {
 				shared = true
 			}
 		}
+		if env.gw.es.MergedSchema.Mutation != nil && r.Intn(3) == 0 {
+			// two permission sets that agree on queries and differ on mutations, both asking what the schema offers them
+			// for mutations: whatever is derived from one request's permissions must not be served to the other
+			metaQ := "{ __type(name: \"Mutation\") { name fields { name } } s: __schema { mutationType { fields { name } } types { name } } }"
+			qp := genPerm(r, env.gw.es.MergedSchema, env.gw.es.MergedSchema.Query, 1+r.Intn(2))
+			pa := bramble.OperationPermissions{AllowedRootQueryFields: qp, AllowedRootMutationFields: bramble.AllowedFields{AllowAll: true}}
+			pb := bramble.OperationPermissions{AllowedRootQueryFields: qp, AllowedRootMutationFields: genPerm(r, env.gw.es.MergedSchema, env.gw.es.MergedSchema.Mutation, 1)}
+			if pb.AllowedRootMutationFields.AllowAll {
+				pb.AllowedRootMutationFields = bramble.AllowedFields{AllowedSubfields: map[string]bramble.AllowedFields{}}
+			}
+			for _, pp := range []bramble.OperationPermissions{pa, pb} {
+				pp := pp
+				tag := fmt.Sprintf("b%d-r%d", bi, len(reqs))
+				reqs = append(reqs, c12req{q: metaQ, vars: map[string]interface{}{}, hdr: map[string]string{"X-Fwd-Req": tag, "X-Perm": tag}, perm: &pp, tag: tag, meta: true})
+			}
+			shared = true
+			sum.Features["same_query_permissions_other_mutation_permissions"]++
+		}
 		reg := func(gw *gatewayUnderTest) {
 			for _, rq := range reqs {
 				if rq.perm != nil {
@@ -262,7 +309,11 @@ func runC12(cfg runCfg) error {
 				if obs[i].resp == nil {
 					continue
 				}
-				if respKey(obs[i].resp) != respKey(alone[i].resp) {
+				key := respKey
+				if reqs[i].meta {
+					key = metaKey
+				}
+				if key(obs[i].resp) != key(alone[i].resp) {
 					d := fmt.Sprintf("pass %d (concurrent=%v): response %.400s, alone %.400s", pass, concurrent, respKey(obs[i].resp), respKey(alone[i].resp))
 					if concurrent {
 						okConc[i] = false
@@ -293,8 +344,10 @@ func runC12(cfg runCfg) error {
 			if gerr != nil {
 				continue
 			}
-			run := &e2eRun{Query: rq.q, Vars: rq.vars, Resp: concObs[i].resp, Requests: concObs[i].reqs, Doc: doc, Op: doc.Operations[0]}
-			w.add(name, emitE2ECase(env, run, e2eCaseOpts{max: 50, conforming: true, perm: rq.perm}))
+			if !rq.meta {
+				run := &e2eRun{Query: rq.q, Vars: rq.vars, Resp: concObs[i].resp, Requests: concObs[i].reqs, Doc: doc, Op: doc.Operations[0]}
+				w.add(name, emitE2ECase(env, run, e2eCaseOpts{max: 50, conforming: true, perm: rq.perm}))
+			}
 			pb, _ := json.Marshal(rq.perm)
 			var batch []map[string]interface{}
 			for _, o := range reqs {
